@@ -2,12 +2,13 @@ import ProbLogModel.Clark
 import ProbLogModel.Cycles
 import ProbLogProofs.Lemmas.ClarkEval
 import ProbLogProofs.Lemmas.ClarkAD
+import ProbLogProofs.Lemmas.ClarkCount
 /-!
 # C09 — cycle breaking and Clark's completion preserve the ground program's meaning (property theorems only)
 
 Clark half: "The CNF produced by Clark's completion has, for every atom assignment, exactly one model extending it,
 and that model agrees with the acyclic program on every node, with constraints and weights carried over unchanged."
-Helper lemmas: `ProbLogProofs/Lemmas/Clark.lean`, `ClarkDag.lean`, `ClarkEval.lean`, `ClarkAD.lean`.
+Helper lemmas: `ProbLogProofs/Lemmas/Clark.lean`, `ClarkDag.lean`, `ClarkEval.lean`, `ClarkAD.lean`, `ClarkCount.lean`.
 -/
 namespace ProbLogProofs.C09
 open ProbLogModel.Formula ProbLogModel.Clark ProbLogProofs.Lemmas.Clark
@@ -124,6 +125,29 @@ example : acyclic exStore = true ∧ ∃ nc, nodeClausesAll exStore = .ok nc ∧
 example : ∃ cnf, clark exStore = .ok cnf ∧ cnf.clauses.length = 10 := ⟨_, rfl, rfl⟩
 -- the unique model for a1 = true, a2 = false gives n3 = n4 = true
 example : dagVals (fun i => i == 1) exStore.nodes = [true, false, true, true, false] := by decide
+
+/-- **Model count**: over the node variables `1..n` (value lists of length `n`), the node clauses of an acyclic store
+    have exactly `2 ^ #atoms` models — `L` enumerates them without repetition. -/
+theorem C09_clark_count (S : Store) (hac : acyclic S = true) (nc : List Clause)
+    (h : nodeClausesAll S = .ok nc) :
+    ∃ L : List (List Bool), L.Nodup ∧ L.length = 2 ^ S.nodes.countP isAtom ∧
+      ∀ l : List Bool, l ∈ L ↔
+        (l.length = S.nodes.length ∧ satCNF (fun i => l.getD (i - 1) false) nc = true) := by
+  refine ⟨models S.nodes, models_nodup _, models_length _, fun l => ?_⟩
+  rw [mem_models, ← eq_dagVals_iff]
+  constructor
+  · intro hl
+    have hlen : l.length = S.nodes.length := by rw [hl, dagVals_length]
+    refine ⟨hlen, ?_⟩
+    show satCNF (valOf l) nc = true
+    rw [C09_clark_unique S hac nc h (valOf l) _ (fun _ _ _ _ _ _ => rfl)]
+    exact (pointwise_iff_eq S.nodes (valOf l) l hlen).mpr hl
+  · rintro ⟨hlen, hs⟩
+    change satCNF (valOf l) nc = true at hs
+    rw [C09_clark_unique S hac nc h (valOf l) _ (fun _ _ _ _ _ _ => rfl)] at hs
+    exact (pointwise_iff_eq S.nodes (valOf l) l hlen).mp hs
+
+example : exStore.nodes.countP isAtom = 3 ∧ (models exStore.nodes).length = 8 := by decide
 
 /-- **AD constraints**: the clauses of a non-trivial constraint (`≥ 2` members, extra node `e`, ids positive) hold
     iff exactly one of the variables `c.nodes ++ [e]` (counted by position — no distinctness needed) is true. -/
